@@ -24,6 +24,17 @@ type Rng struct{ s uint64 }
 
 func NewRng(seed uint64) *Rng { return &Rng{s: seed*0x9E3779B97F4A7C15 + 0x1234567} }
 
+// NewStream: the generator stream of a run. NewRng(n) and NewRng(n+1) are the same sequence one
+// step apart (the state advances by the constant the seed is multiplied with), so neighbouring
+// seeds - the shards of one check - would explore almost the same inputs; the seed is scrambled first.
+func NewStream(seed uint64) *Rng {
+	z := seed + 0xD6E8FEB86659FD93
+	z = (z ^ (z >> 32)) * 0xD6E8FEB86659FD93
+	z = (z ^ (z >> 32)) * 0xD6E8FEB86659FD93
+	z ^= z >> 32
+	return &Rng{s: z}
+}
+
 func (r *Rng) U64() uint64 {
 	r.s += 0x9E3779B97F4A7C15
 	z := r.s
@@ -126,7 +137,7 @@ func Start() *Run {
 	if err != nil {
 		panic(err)
 	}
-	return &Run{Seed: *seed, Tier: *tier, R: NewRng(*seed), fo: fo, fu: fu,
+	return &Run{Seed: *seed, Tier: *tier, R: NewStream(*seed), fo: fo, fu: fu,
 		ops: bufio.NewWriterSize(fo, 1<<20), out: bufio.NewWriterSize(fu, 1<<20), metaPath: *meta,
 		Dist: map[string]int{}, distinct: map[string]struct{}{}, Extra: map[string]interface{}{},
 		Replay: *replay, Mode: *mode}
